@@ -14,8 +14,8 @@ def program(rnd):
     d["sibling"] = rnd.choice([None, None, "plain", "tile"])
     # general @atomic forms (plain assignment that reads its target, one- and two-statement blocks): OpenMP must make them critical
     # sections; the GPU back ends reject them ("Unable to transform general @atomic code"), which is why only C21 generates them
-    # family: 0 = basic forms only (+=, -=), 1 = general forms only, 2 = free mix (known finding atomic-critical-mix: OCCA protects the
-    # basic forms with `omp atomic` and the general ones with `omp critical`, which do not exclude each other)
+    # family: 0 = basic forms only (+=, -=), 1 = general forms only, 2 = free mix (basic forms are `omp atomic`, general ones `omp critical`;
+    # the two do not exclude each other, mixing them on one cell lost updates until fix a7190ac)
     if d["atomic"]:
         for ph in d["phases"]:
             if rnd.random() < 0.5 and not any(s[0] == "atomic" for s in ph["stm"]):
@@ -77,13 +77,6 @@ class C21Spec(p_C20.C20Spec):
             v.append(("tsan threads=%d" % t, "tsan", {"OMP_NUM_THREADS": str(t), "OMP_TOOL_LIBRARIES": ARCHER,
                                                       "TSAN_OPTIONS": "ignore_noninstrumented_modules=1 halt_on_error=0 exitcode=0"}))
         return v
-
-    def known_class(self, desc, known_ids):
-        # generator-level exclusion of a listed finding: kernels that use both a basic and a general @atomic form (their counter
-        # cells overlap: 7 cells, indices derived from the work-item ids)
-        if "atomic-critical-mix" in known_ids and all(atomic_forms(desc)):
-            return "atomic-critical-mix"
-        return None
 
     def classes(self, d):
         gen = sorted({"atomic-form:" + s[1] for ph in d["phases"] for s in ph["stm"] if s[0] == "atomic"}) if d["atomic"] else []
